@@ -21,6 +21,11 @@ CLAIMED = {
   text="seeded search over interleavings x pool decisions x cache capacities; schedules replay exactly from the tape",
   note="generated and native code are atomic blocks except at call-outs; the real GC is not scheduled by the simulator (a crash it causes is a true violation but replays only through the deterministic traceback-sentinel oracle)",
   ref="DESIGN.md 3 (C08)"),
+ "C10": dict(
+  technique="deterministic simulation of Go-runtime events: sonic's per-opcode debug seam re-pointed at the simulator (a hook call after every opcode of every compiled program, both JITs) plus hooks in every user callback; the tape injects GC, stack growth/shrink (stack moves), tracebacks with sentinel check, Gosched, background GC cycles, allocation churn; GODEBUG=clobberfree=1, SetGCPercent(-1); two toolchains",
+  text="seeded search over (event kind x opcode boundary x program) schedules in child processes; every run is one tape",
+  note="opcode boundaries and call-outs only, not arbitrary instructions; upstream's own exemption before `save` opcodes; the C10 flavour adds one call per opcode to the generated code; background-cycle timing is the runtime's",
+  ref="DESIGN.md 3 (C10)"),
  "C09": dict(
   technique="deterministic simulation of process-global state through seeded call histories: program-cache capacity knob (rehash/wrap-around with a handful of types), compile-option knobs, seeded permutation of every Go map iteration in the compile and batch-load paths, seeded pool decisions, same-named distinct types; oracle = encoding/json + arbitration by the same call with emptied caches",
   text="seeded search over histories x knobs; one history = one tape, minimised and replayed in a fresh process",
